@@ -146,35 +146,54 @@ pub fn dyn_time<G: TimeGetter<E> + 'static>(r: &Rc<RefCell<G>>) -> Reference<dyn
     Reference::from_rc_ref_cell(d)
 }
 
-/// Code for a unit that is stable across runs: (mm exponent, s exponent) found by search on
-/// the dimension-checked builds; 0 on unchecked builds where Unit is a ZST.
-pub fn unit_code(u: Unit) -> i32 {
+/// Exponents (mm, s) of a unit, read from its representation so that the harness does not
+/// depend on the crate's own unit-equality code (which C01 is checking). The field order is
+/// calibrated once against the derived Debug output. (0,0) on unchecked builds (ZST Unit).
+pub fn unit_exps(u: Unit) -> (i32, i32) {
     #[cfg(feature = "dimcheck")]
     {
-        for r in 0i32..=127 {
-            for m in -r..=r {
-                for s in -r..=r {
-                    if m.abs().max(s.abs()) != r {
-                        continue;
-                    }
-                    if u.eq_assume_true(&Unit::new(m as i8, s as i8)) {
-                        return m * 1000 + s;
-                    }
-                }
-            }
+        use std::sync::OnceLock;
+        static MM_FIRST: OnceLock<bool> = OnceLock::new();
+        assert_eq!(core::mem::size_of::<Unit>(), 2, "Unit is expected to be two i8 exponents");
+        let raw = |u: Unit| -> [i8; 2] { unsafe { core::mem::transmute_copy(&u) } };
+        let mm_first = *MM_FIRST.get_or_init(|| {
+            let probe = Unit::new(5, -7);
+            assert_eq!(unit_exps_debug(probe), (5, -7), "Debug output of Unit does not have the expected shape");
+            let r = raw(probe);
+            assert!(r == [5, -7] || r == [-7, 5]);
+            r == [5, -7]
+        });
+        let r = raw(u);
+        if mm_first {
+            (r[0] as i32, r[1] as i32)
+        } else {
+            (r[1] as i32, r[0] as i32)
         }
-        i32::MIN
     }
     #[cfg(not(feature = "dimcheck"))]
     {
         let _ = u;
-        0
+        (0, 0)
     }
 }
-pub fn unit_exps(u: Unit) -> (i32, i32) {
-    let c = unit_code(u);
-    let m = (c as f64 / 1000.0).round() as i32;
-    (m, c - m * 1000)
+/// Same, parsed from the derived Debug output `Unit { millimeter_exp: m, second_exp: s }`.
+pub fn unit_exps_debug(u: Unit) -> (i32, i32) {
+    let s = format!("{:?}", u);
+    let num = |key: &str| -> i32 {
+        match s.find(key) {
+            None => 0,
+            Some(p) => {
+                let rest = &s[p + key.len()..];
+                let end = rest.find(|c: char| c != '-' && !c.is_ascii_digit()).unwrap_or(rest.len());
+                rest[..end].parse().unwrap_or(i32::MIN)
+            }
+        }
+    };
+    (num("millimeter_exp: "), num("second_exp: "))
+}
+pub fn unit_code(u: Unit) -> i32 {
+    let (m, s) = unit_exps(u);
+    m * 1000 + s
 }
 
 /// Canonical observation of an `Output<T,E>`: (tag, time, payload bits).
